@@ -33,15 +33,15 @@ import (
 const numericsEps = 1.0 / (1 << 16) // tail-relative tolerance of the sampled numerics check (gonum CDF accuracy)
 
 type harness struct {
-	c      *vh.Ctx
-	res    *vh.Result
-	drv    *vh.Driver
-	err    error
-	nfail  map[string]int
-	replaying bool     // replay mode: collect messages, write nothing
+	c         *vh.Ctx
+	res       *vh.Result
+	drv       *vh.Driver
+	err       error
+	nfail     map[string]int
+	replaying bool // replay mode: collect messages, write nothing
 	msgs      []string
-	maxEps float64
-	stats  map[string]int
+	maxEps    float64
+	stats     map[string]int
 }
 
 func (h *harness) ask(line string) string {
@@ -965,6 +965,16 @@ func run(c *vh.Ctx) error {
 	// (d) credentials
 	if h.err == nil {
 		h.credentials(c.N(90, 1500) * mult)
+	}
+	// node-level verifiers on a scripted chain reader (+ probes of the recorded findings)
+	if h.err == nil {
+		h.serverStream(c.N(12, 120) * mult)
+		lenient := h.nfail["server-vote-old-index-sub"] + h.nfail["server-vote-old-round-sub"] + h.nfail["server-vote-old-index-proof"]
+		res.Probes = append(res.Probes, vh.Probe{ID: "F-C04b", Reproduced: lenient > 0,
+			What: fmt.Sprintf("Server.verifySortition accepted %d non-verifying credentials addressed to a position older than the node's own", lenient)})
+		forged := h.nfail["server-prio-forged-max"] + h.nfail["server-prio-forged-bit"]
+		res.Probes = append(res.Probes, vh.Probe{ID: "F-C04a", Reproduced: forged > 0,
+			What: fmt.Sprintf("Server.verifyPriority accepted %d forged priorities (fixed finding)", forged)})
 	}
 	if h.err != nil {
 		return h.err
